@@ -166,6 +166,8 @@ class Machine:
         if op == "tobool":
             a = self.ev(e[1], env)
             return None if a is None else int(bool(a))
+        if op == "uview":  # .unsigned view of a vector: same bits
+            return self.ev(e[1], env)
         if op == "ridx":
             a, i = self.ev(e[1], env), self.ev(e[2], env)
             if i is None:
@@ -195,7 +197,7 @@ class Machine:
             return e[2] if len(e) > 2 else self.W
         if op in ("add", "sub", "xor", "and", "or"):
             return max(self.ewidth(e[1]), self.ewidth(e[2]))
-        if op == "inv":
+        if op in ("inv", "uview"):
             return self.ewidth(e[1])
         if op == "slice":
             return e[2] - e[3] + 1
